@@ -3,6 +3,7 @@ NEXT GNext
 CONSTANT Kinds = {"chars"}
 CONSTANT MaxFull = 2
 CONSTANT MaxCore = 3
+CONSTANT MaxTiny = 4
 CONSTANT MaxLref = 4
 CONSTANT MaxChars = 3
 CONSTANT MutFams = {14}
